@@ -114,7 +114,7 @@ public:
         T zero = T(0);
         T sqrtt = T(sqrt(p)) + 1;
 #ifdef PARMCB_INVARIANTS_CHECK
-         if ( sqrtt * sqrtt < p )
+         if ( sqrtt < p / sqrtt )
              throw new std::runtime_error("error calculating square");
 #endif
         while (t <= sqrtt) {
